@@ -27,11 +27,27 @@ pub trait Visitor<'de>: Sized {
     fn visit_borrowed_str(self, v: &'de str) -> Result<Self::Value, DeError>;
     fn visit_str(self, v: &str) -> Result<Self::Value, DeError>;
     fn visit_string(self, v: String) -> Result<Self::Value, DeError>;
+    fn visit_i8(self, v: i8) -> Result<Self::Value, DeError>;
+    fn visit_i16(self, v: i16) -> Result<Self::Value, DeError>;
+    fn visit_i32(self, v: i32) -> Result<Self::Value, DeError>;
+    fn visit_i64(self, v: i64) -> Result<Self::Value, DeError>;
+    fn visit_u8(self, v: u8) -> Result<Self::Value, DeError>;
+    fn visit_u16(self, v: u16) -> Result<Self::Value, DeError>;
+    fn visit_u32(self, v: u32) -> Result<Self::Value, DeError>;
+    fn visit_u64(self, v: u64) -> Result<Self::Value, DeError>;
+    fn visit_f32(self, v: f32) -> Result<Self::Value, DeError>;
+    fn visit_f64(self, v: f64) -> Result<Self::Value, DeError>;
     fn visit_some<D: DeModel<'de>>(self, deserializer: D) -> Result<Self::Value, DeError>;
     fn visit_newtype_struct<D: DeModel<'de>>(self, deserializer: D) -> Result<Self::Value, DeError>;
     fn visit_seq<A: SeqModel<'de>>(self, seq: A) -> Result<Self::Value, DeError>;
     fn visit_enum<A: EnumModel<'de>>(self, data: A) -> Result<Self::Value, DeError>;
 }
+/// `str::parse::<T>()` for the number types (std FromStr, not modelled): a number or not -- nothing else is used (declared
+/// rewrites `text.parse()` ==> `parse_str_(text)`, `self.name.parse()` ==> `parse_cowref_(&self.name)`)
+#[verifier::external_body]
+pub fn parse_str_<T>(s: &str) -> Result<T, ()> { unimplemented!() }
+#[verifier::external_body]
+pub fn parse_cowref_<'i, 's, T>(s: &CowRef<'i, 's, str>) -> Result<T, ()> { unimplemented!() }
 pub trait DeserializeSeed<'de>: Sized {
     type Value;
     fn deserialize<D: DeModel<'de>>(self, deserializer: D) -> Result<Self::Value, DeError>;
@@ -98,6 +114,146 @@ impl<'de, 'a> AtomicDeserializer<'de, 'a> {
     {
         self.content.deserialize_bool(visitor)
     }
+//@end
+//@extract de::simple_type::AtomicDeserializer::deserialize_i8 | src/de/simple_type.rs :: impl<'de, 'a> Deserializer<'de> for AtomicDeserializer<'de, 'a> :: invoke deserialize_num :: fn deserialize_i8 | serves=C07 features=serialize
+//@rewrite-opt Self::Error ==> DeError
+//@rewrite text.parse() ==> parse_str_(text)
+        fn deserialize_i8<V>(self, visitor: V) -> Result<V::Value, DeError>
+        where
+            V: Visitor<'de>,
+        {
+            let text: &str = self.content.as_ref();
+            match parse_str_(text) {
+                Ok(number) => visitor.visit_i8(number),
+                Err(_) => self.content.deserialize_str(visitor),
+            }
+        }
+//@end
+//@extract de::simple_type::AtomicDeserializer::deserialize_i16 | src/de/simple_type.rs :: impl<'de, 'a> Deserializer<'de> for AtomicDeserializer<'de, 'a> :: invoke deserialize_num :: fn deserialize_i16 | serves=C07 features=serialize
+//@rewrite-opt Self::Error ==> DeError
+//@rewrite text.parse() ==> parse_str_(text)
+        fn deserialize_i16<V>(self, visitor: V) -> Result<V::Value, DeError>
+        where
+            V: Visitor<'de>,
+        {
+            let text: &str = self.content.as_ref();
+            match parse_str_(text) {
+                Ok(number) => visitor.visit_i16(number),
+                Err(_) => self.content.deserialize_str(visitor),
+            }
+        }
+//@end
+//@extract de::simple_type::AtomicDeserializer::deserialize_i32 | src/de/simple_type.rs :: impl<'de, 'a> Deserializer<'de> for AtomicDeserializer<'de, 'a> :: invoke deserialize_num :: fn deserialize_i32 | serves=C07 features=serialize
+//@rewrite-opt Self::Error ==> DeError
+//@rewrite text.parse() ==> parse_str_(text)
+        fn deserialize_i32<V>(self, visitor: V) -> Result<V::Value, DeError>
+        where
+            V: Visitor<'de>,
+        {
+            let text: &str = self.content.as_ref();
+            match parse_str_(text) {
+                Ok(number) => visitor.visit_i32(number),
+                Err(_) => self.content.deserialize_str(visitor),
+            }
+        }
+//@end
+//@extract de::simple_type::AtomicDeserializer::deserialize_i64 | src/de/simple_type.rs :: impl<'de, 'a> Deserializer<'de> for AtomicDeserializer<'de, 'a> :: invoke deserialize_num :: fn deserialize_i64 | serves=C07 features=serialize
+//@rewrite-opt Self::Error ==> DeError
+//@rewrite text.parse() ==> parse_str_(text)
+        fn deserialize_i64<V>(self, visitor: V) -> Result<V::Value, DeError>
+        where
+            V: Visitor<'de>,
+        {
+            let text: &str = self.content.as_ref();
+            match parse_str_(text) {
+                Ok(number) => visitor.visit_i64(number),
+                Err(_) => self.content.deserialize_str(visitor),
+            }
+        }
+//@end
+//@extract de::simple_type::AtomicDeserializer::deserialize_u8 | src/de/simple_type.rs :: impl<'de, 'a> Deserializer<'de> for AtomicDeserializer<'de, 'a> :: invoke deserialize_num :: fn deserialize_u8 | serves=C07 features=serialize
+//@rewrite-opt Self::Error ==> DeError
+//@rewrite text.parse() ==> parse_str_(text)
+        fn deserialize_u8<V>(self, visitor: V) -> Result<V::Value, DeError>
+        where
+            V: Visitor<'de>,
+        {
+            let text: &str = self.content.as_ref();
+            match parse_str_(text) {
+                Ok(number) => visitor.visit_u8(number),
+                Err(_) => self.content.deserialize_str(visitor),
+            }
+        }
+//@end
+//@extract de::simple_type::AtomicDeserializer::deserialize_u16 | src/de/simple_type.rs :: impl<'de, 'a> Deserializer<'de> for AtomicDeserializer<'de, 'a> :: invoke deserialize_num :: fn deserialize_u16 | serves=C07 features=serialize
+//@rewrite-opt Self::Error ==> DeError
+//@rewrite text.parse() ==> parse_str_(text)
+        fn deserialize_u16<V>(self, visitor: V) -> Result<V::Value, DeError>
+        where
+            V: Visitor<'de>,
+        {
+            let text: &str = self.content.as_ref();
+            match parse_str_(text) {
+                Ok(number) => visitor.visit_u16(number),
+                Err(_) => self.content.deserialize_str(visitor),
+            }
+        }
+//@end
+//@extract de::simple_type::AtomicDeserializer::deserialize_u32 | src/de/simple_type.rs :: impl<'de, 'a> Deserializer<'de> for AtomicDeserializer<'de, 'a> :: invoke deserialize_num :: fn deserialize_u32 | serves=C07 features=serialize
+//@rewrite-opt Self::Error ==> DeError
+//@rewrite text.parse() ==> parse_str_(text)
+        fn deserialize_u32<V>(self, visitor: V) -> Result<V::Value, DeError>
+        where
+            V: Visitor<'de>,
+        {
+            let text: &str = self.content.as_ref();
+            match parse_str_(text) {
+                Ok(number) => visitor.visit_u32(number),
+                Err(_) => self.content.deserialize_str(visitor),
+            }
+        }
+//@end
+//@extract de::simple_type::AtomicDeserializer::deserialize_u64 | src/de/simple_type.rs :: impl<'de, 'a> Deserializer<'de> for AtomicDeserializer<'de, 'a> :: invoke deserialize_num :: fn deserialize_u64 | serves=C07 features=serialize
+//@rewrite-opt Self::Error ==> DeError
+//@rewrite text.parse() ==> parse_str_(text)
+        fn deserialize_u64<V>(self, visitor: V) -> Result<V::Value, DeError>
+        where
+            V: Visitor<'de>,
+        {
+            let text: &str = self.content.as_ref();
+            match parse_str_(text) {
+                Ok(number) => visitor.visit_u64(number),
+                Err(_) => self.content.deserialize_str(visitor),
+            }
+        }
+//@end
+//@extract de::simple_type::AtomicDeserializer::deserialize_f32 | src/de/simple_type.rs :: impl<'de, 'a> Deserializer<'de> for AtomicDeserializer<'de, 'a> :: invoke deserialize_num :: fn deserialize_f32 | serves=C07 features=serialize
+//@rewrite-opt Self::Error ==> DeError
+//@rewrite text.parse() ==> parse_str_(text)
+        fn deserialize_f32<V>(self, visitor: V) -> Result<V::Value, DeError>
+        where
+            V: Visitor<'de>,
+        {
+            let text: &str = self.content.as_ref();
+            match parse_str_(text) {
+                Ok(number) => visitor.visit_f32(number),
+                Err(_) => self.content.deserialize_str(visitor),
+            }
+        }
+//@end
+//@extract de::simple_type::AtomicDeserializer::deserialize_f64 | src/de/simple_type.rs :: impl<'de, 'a> Deserializer<'de> for AtomicDeserializer<'de, 'a> :: invoke deserialize_num :: fn deserialize_f64 | serves=C07 features=serialize
+//@rewrite-opt Self::Error ==> DeError
+//@rewrite text.parse() ==> parse_str_(text)
+        fn deserialize_f64<V>(self, visitor: V) -> Result<V::Value, DeError>
+        where
+            V: Visitor<'de>,
+        {
+            let text: &str = self.content.as_ref();
+            match parse_str_(text) {
+                Ok(number) => visitor.visit_f64(number),
+                Err(_) => self.content.deserialize_str(visitor),
+            }
+        }
 //@end
 //@extract de::simple_type::AtomicDeserializer::deserialize_char | src/de/simple_type.rs :: impl<'de, 'a> Deserializer<'de> for AtomicDeserializer<'de, 'a> :: fn deserialize_char | serves=C07 features=serialize
 //@rewrite-opt Self::Error ==> DeError
@@ -554,6 +710,136 @@ impl<'de, 'a> SimpleTypeDeserializer<'de, 'a> {
             de.deserialize_bool(visitor)
         }
 //@end
+//@extract de::simple_type::SimpleTypeDeserializer::deserialize_i8 | src/de/simple_type.rs :: impl<'de, 'a> Deserializer<'de> for SimpleTypeDeserializer<'de, 'a> :: invoke deserialize_primitive :: fn deserialize_i8 | serves=C07 features=serialize
+//@rewrite-opt Self::Error ==> DeError
+        fn deserialize_i8<V>(self, visitor: V) -> Result<V::Value, DeError>
+        where
+            V: Visitor<'de>,
+        {
+            let de = AtomicDeserializer {
+                content: self.decode()?,
+                escaped: self.escaped,
+            };
+            de.deserialize_i8(visitor)
+        }
+//@end
+//@extract de::simple_type::SimpleTypeDeserializer::deserialize_i16 | src/de/simple_type.rs :: impl<'de, 'a> Deserializer<'de> for SimpleTypeDeserializer<'de, 'a> :: invoke deserialize_primitive :: fn deserialize_i16 | serves=C07 features=serialize
+//@rewrite-opt Self::Error ==> DeError
+        fn deserialize_i16<V>(self, visitor: V) -> Result<V::Value, DeError>
+        where
+            V: Visitor<'de>,
+        {
+            let de = AtomicDeserializer {
+                content: self.decode()?,
+                escaped: self.escaped,
+            };
+            de.deserialize_i16(visitor)
+        }
+//@end
+//@extract de::simple_type::SimpleTypeDeserializer::deserialize_i32 | src/de/simple_type.rs :: impl<'de, 'a> Deserializer<'de> for SimpleTypeDeserializer<'de, 'a> :: invoke deserialize_primitive :: fn deserialize_i32 | serves=C07 features=serialize
+//@rewrite-opt Self::Error ==> DeError
+        fn deserialize_i32<V>(self, visitor: V) -> Result<V::Value, DeError>
+        where
+            V: Visitor<'de>,
+        {
+            let de = AtomicDeserializer {
+                content: self.decode()?,
+                escaped: self.escaped,
+            };
+            de.deserialize_i32(visitor)
+        }
+//@end
+//@extract de::simple_type::SimpleTypeDeserializer::deserialize_i64 | src/de/simple_type.rs :: impl<'de, 'a> Deserializer<'de> for SimpleTypeDeserializer<'de, 'a> :: invoke deserialize_primitive :: fn deserialize_i64 | serves=C07 features=serialize
+//@rewrite-opt Self::Error ==> DeError
+        fn deserialize_i64<V>(self, visitor: V) -> Result<V::Value, DeError>
+        where
+            V: Visitor<'de>,
+        {
+            let de = AtomicDeserializer {
+                content: self.decode()?,
+                escaped: self.escaped,
+            };
+            de.deserialize_i64(visitor)
+        }
+//@end
+//@extract de::simple_type::SimpleTypeDeserializer::deserialize_u8 | src/de/simple_type.rs :: impl<'de, 'a> Deserializer<'de> for SimpleTypeDeserializer<'de, 'a> :: invoke deserialize_primitive :: fn deserialize_u8 | serves=C07 features=serialize
+//@rewrite-opt Self::Error ==> DeError
+        fn deserialize_u8<V>(self, visitor: V) -> Result<V::Value, DeError>
+        where
+            V: Visitor<'de>,
+        {
+            let de = AtomicDeserializer {
+                content: self.decode()?,
+                escaped: self.escaped,
+            };
+            de.deserialize_u8(visitor)
+        }
+//@end
+//@extract de::simple_type::SimpleTypeDeserializer::deserialize_u16 | src/de/simple_type.rs :: impl<'de, 'a> Deserializer<'de> for SimpleTypeDeserializer<'de, 'a> :: invoke deserialize_primitive :: fn deserialize_u16 | serves=C07 features=serialize
+//@rewrite-opt Self::Error ==> DeError
+        fn deserialize_u16<V>(self, visitor: V) -> Result<V::Value, DeError>
+        where
+            V: Visitor<'de>,
+        {
+            let de = AtomicDeserializer {
+                content: self.decode()?,
+                escaped: self.escaped,
+            };
+            de.deserialize_u16(visitor)
+        }
+//@end
+//@extract de::simple_type::SimpleTypeDeserializer::deserialize_u32 | src/de/simple_type.rs :: impl<'de, 'a> Deserializer<'de> for SimpleTypeDeserializer<'de, 'a> :: invoke deserialize_primitive :: fn deserialize_u32 | serves=C07 features=serialize
+//@rewrite-opt Self::Error ==> DeError
+        fn deserialize_u32<V>(self, visitor: V) -> Result<V::Value, DeError>
+        where
+            V: Visitor<'de>,
+        {
+            let de = AtomicDeserializer {
+                content: self.decode()?,
+                escaped: self.escaped,
+            };
+            de.deserialize_u32(visitor)
+        }
+//@end
+//@extract de::simple_type::SimpleTypeDeserializer::deserialize_u64 | src/de/simple_type.rs :: impl<'de, 'a> Deserializer<'de> for SimpleTypeDeserializer<'de, 'a> :: invoke deserialize_primitive :: fn deserialize_u64 | serves=C07 features=serialize
+//@rewrite-opt Self::Error ==> DeError
+        fn deserialize_u64<V>(self, visitor: V) -> Result<V::Value, DeError>
+        where
+            V: Visitor<'de>,
+        {
+            let de = AtomicDeserializer {
+                content: self.decode()?,
+                escaped: self.escaped,
+            };
+            de.deserialize_u64(visitor)
+        }
+//@end
+//@extract de::simple_type::SimpleTypeDeserializer::deserialize_f32 | src/de/simple_type.rs :: impl<'de, 'a> Deserializer<'de> for SimpleTypeDeserializer<'de, 'a> :: invoke deserialize_primitive :: fn deserialize_f32 | serves=C07 features=serialize
+//@rewrite-opt Self::Error ==> DeError
+        fn deserialize_f32<V>(self, visitor: V) -> Result<V::Value, DeError>
+        where
+            V: Visitor<'de>,
+        {
+            let de = AtomicDeserializer {
+                content: self.decode()?,
+                escaped: self.escaped,
+            };
+            de.deserialize_f32(visitor)
+        }
+//@end
+//@extract de::simple_type::SimpleTypeDeserializer::deserialize_f64 | src/de/simple_type.rs :: impl<'de, 'a> Deserializer<'de> for SimpleTypeDeserializer<'de, 'a> :: invoke deserialize_primitive :: fn deserialize_f64 | serves=C07 features=serialize
+//@rewrite-opt Self::Error ==> DeError
+        fn deserialize_f64<V>(self, visitor: V) -> Result<V::Value, DeError>
+        where
+            V: Visitor<'de>,
+        {
+            let de = AtomicDeserializer {
+                content: self.decode()?,
+                escaped: self.escaped,
+            };
+            de.deserialize_f64(visitor)
+        }
+//@end
 //@extract de::simple_type::SimpleTypeDeserializer::deserialize_str | src/de/simple_type.rs :: impl<'de, 'a> Deserializer<'de> for SimpleTypeDeserializer<'de, 'a> :: invoke deserialize_primitive :: fn deserialize_str | serves=C07 features=serialize
 //@rewrite-opt Self::Error ==> DeError
         fn deserialize_str<V>(self, visitor: V) -> Result<V::Value, DeError>
@@ -624,6 +910,136 @@ impl<'de, 'd> QNameDeserializer<'de, 'd> {
     {
         self.name.deserialize_bool(visitor)
     }
+//@end
+//@extract de::key::QNameDeserializer::deserialize_i8 | src/de/key.rs :: impl<'de, 'd> Deserializer<'de> for QNameDeserializer<'de, 'd> :: invoke deserialize_num :: fn deserialize_i8 | serves=C07 features=serialize
+//@rewrite-opt Self::Error ==> DeError
+//@rewrite self.name.parse() ==> parse_cowref_(&self.name)
+        fn deserialize_i8<V>(self, visitor: V) -> Result<V::Value, DeError>
+        where
+            V: Visitor<'de>,
+        {
+            match parse_cowref_(&self.name) {
+                Ok(number) => visitor.visit_i8(number),
+                Err(_) => self.name.deserialize_str(visitor),
+            }
+        }
+//@end
+//@extract de::key::QNameDeserializer::deserialize_i16 | src/de/key.rs :: impl<'de, 'd> Deserializer<'de> for QNameDeserializer<'de, 'd> :: invoke deserialize_num :: fn deserialize_i16 | serves=C07 features=serialize
+//@rewrite-opt Self::Error ==> DeError
+//@rewrite self.name.parse() ==> parse_cowref_(&self.name)
+        fn deserialize_i16<V>(self, visitor: V) -> Result<V::Value, DeError>
+        where
+            V: Visitor<'de>,
+        {
+            match parse_cowref_(&self.name) {
+                Ok(number) => visitor.visit_i16(number),
+                Err(_) => self.name.deserialize_str(visitor),
+            }
+        }
+//@end
+//@extract de::key::QNameDeserializer::deserialize_i32 | src/de/key.rs :: impl<'de, 'd> Deserializer<'de> for QNameDeserializer<'de, 'd> :: invoke deserialize_num :: fn deserialize_i32 | serves=C07 features=serialize
+//@rewrite-opt Self::Error ==> DeError
+//@rewrite self.name.parse() ==> parse_cowref_(&self.name)
+        fn deserialize_i32<V>(self, visitor: V) -> Result<V::Value, DeError>
+        where
+            V: Visitor<'de>,
+        {
+            match parse_cowref_(&self.name) {
+                Ok(number) => visitor.visit_i32(number),
+                Err(_) => self.name.deserialize_str(visitor),
+            }
+        }
+//@end
+//@extract de::key::QNameDeserializer::deserialize_i64 | src/de/key.rs :: impl<'de, 'd> Deserializer<'de> for QNameDeserializer<'de, 'd> :: invoke deserialize_num :: fn deserialize_i64 | serves=C07 features=serialize
+//@rewrite-opt Self::Error ==> DeError
+//@rewrite self.name.parse() ==> parse_cowref_(&self.name)
+        fn deserialize_i64<V>(self, visitor: V) -> Result<V::Value, DeError>
+        where
+            V: Visitor<'de>,
+        {
+            match parse_cowref_(&self.name) {
+                Ok(number) => visitor.visit_i64(number),
+                Err(_) => self.name.deserialize_str(visitor),
+            }
+        }
+//@end
+//@extract de::key::QNameDeserializer::deserialize_u8 | src/de/key.rs :: impl<'de, 'd> Deserializer<'de> for QNameDeserializer<'de, 'd> :: invoke deserialize_num :: fn deserialize_u8 | serves=C07 features=serialize
+//@rewrite-opt Self::Error ==> DeError
+//@rewrite self.name.parse() ==> parse_cowref_(&self.name)
+        fn deserialize_u8<V>(self, visitor: V) -> Result<V::Value, DeError>
+        where
+            V: Visitor<'de>,
+        {
+            match parse_cowref_(&self.name) {
+                Ok(number) => visitor.visit_u8(number),
+                Err(_) => self.name.deserialize_str(visitor),
+            }
+        }
+//@end
+//@extract de::key::QNameDeserializer::deserialize_u16 | src/de/key.rs :: impl<'de, 'd> Deserializer<'de> for QNameDeserializer<'de, 'd> :: invoke deserialize_num :: fn deserialize_u16 | serves=C07 features=serialize
+//@rewrite-opt Self::Error ==> DeError
+//@rewrite self.name.parse() ==> parse_cowref_(&self.name)
+        fn deserialize_u16<V>(self, visitor: V) -> Result<V::Value, DeError>
+        where
+            V: Visitor<'de>,
+        {
+            match parse_cowref_(&self.name) {
+                Ok(number) => visitor.visit_u16(number),
+                Err(_) => self.name.deserialize_str(visitor),
+            }
+        }
+//@end
+//@extract de::key::QNameDeserializer::deserialize_u32 | src/de/key.rs :: impl<'de, 'd> Deserializer<'de> for QNameDeserializer<'de, 'd> :: invoke deserialize_num :: fn deserialize_u32 | serves=C07 features=serialize
+//@rewrite-opt Self::Error ==> DeError
+//@rewrite self.name.parse() ==> parse_cowref_(&self.name)
+        fn deserialize_u32<V>(self, visitor: V) -> Result<V::Value, DeError>
+        where
+            V: Visitor<'de>,
+        {
+            match parse_cowref_(&self.name) {
+                Ok(number) => visitor.visit_u32(number),
+                Err(_) => self.name.deserialize_str(visitor),
+            }
+        }
+//@end
+//@extract de::key::QNameDeserializer::deserialize_u64 | src/de/key.rs :: impl<'de, 'd> Deserializer<'de> for QNameDeserializer<'de, 'd> :: invoke deserialize_num :: fn deserialize_u64 | serves=C07 features=serialize
+//@rewrite-opt Self::Error ==> DeError
+//@rewrite self.name.parse() ==> parse_cowref_(&self.name)
+        fn deserialize_u64<V>(self, visitor: V) -> Result<V::Value, DeError>
+        where
+            V: Visitor<'de>,
+        {
+            match parse_cowref_(&self.name) {
+                Ok(number) => visitor.visit_u64(number),
+                Err(_) => self.name.deserialize_str(visitor),
+            }
+        }
+//@end
+//@extract de::key::QNameDeserializer::deserialize_f32 | src/de/key.rs :: impl<'de, 'd> Deserializer<'de> for QNameDeserializer<'de, 'd> :: invoke deserialize_num :: fn deserialize_f32 | serves=C07 features=serialize
+//@rewrite-opt Self::Error ==> DeError
+//@rewrite self.name.parse() ==> parse_cowref_(&self.name)
+        fn deserialize_f32<V>(self, visitor: V) -> Result<V::Value, DeError>
+        where
+            V: Visitor<'de>,
+        {
+            match parse_cowref_(&self.name) {
+                Ok(number) => visitor.visit_f32(number),
+                Err(_) => self.name.deserialize_str(visitor),
+            }
+        }
+//@end
+//@extract de::key::QNameDeserializer::deserialize_f64 | src/de/key.rs :: impl<'de, 'd> Deserializer<'de> for QNameDeserializer<'de, 'd> :: invoke deserialize_num :: fn deserialize_f64 | serves=C07 features=serialize
+//@rewrite-opt Self::Error ==> DeError
+//@rewrite self.name.parse() ==> parse_cowref_(&self.name)
+        fn deserialize_f64<V>(self, visitor: V) -> Result<V::Value, DeError>
+        where
+            V: Visitor<'de>,
+        {
+            match parse_cowref_(&self.name) {
+                Ok(number) => visitor.visit_f64(number),
+                Err(_) => self.name.deserialize_str(visitor),
+            }
+        }
 //@end
 //@extract de::key::QNameDeserializer::deserialize_unit | src/de/key.rs :: impl<'de, 'd> Deserializer<'de> for QNameDeserializer<'de, 'd> :: fn deserialize_unit | serves=C07 features=serialize
 //@rewrite-opt Self::Error ==> DeError
